@@ -113,93 +113,24 @@ def r2_diagnostics(ctx, prog, cfg):
     if b is None:
         r.missing("Locale::merge")
         return r
-    oks = M.ok_return_blocks(b)
-    feas = M.feasible_reachable(b)
-    # --- MissingKey
-    miss = [i for i in M.agg_blocks(b, "warning::Warning", "MissingKey") if i in feas]
-    entry_sw = [(i, sw) for (i, sw, pl) in M.discr_switches(b, lambda pl: "btree_map::Entry<" in b.local_ty(pl["l"]))]
-    dt_sw = [(i, sw) for (i, sw, pl) in M.discr_switches(b, lambda pl: "locale::DefaultTo<" in b.local_ty(pl["l"]))]
-    ins = M.call_blocks(b, r"btree_map::VacantEntry::<.*>::insert$")
-    if len(entry_sw) != 1 or len(dt_sw) != 1 or len(ins) != 1 or len(miss) != 1:
-        r.viol("R2:merge#missing-shape", "cannot identify the Vacant/Implicit decision around MissingKey (entry switches %d, default_to switches %d, vacant inserts %d, MissingKey sites %d)" % (len(entry_sw), len(dt_sw), len(ins), len(miss)), file=b.file, line=b.line)
+    # --- what Locale::merge does with a missing / present / surplus key: abstract evaluation (rules/localemerge.py)
+    from rules import localemerge
+    rows = localemerge.table(ctx)
+    bad = [(label, res, log, want) for (label, res, log, want) in rows if not (res == localemerge.C("Ok", localemerge.UNIT) and sorted(map(repr, log)) == sorted(map(repr, want)))]
+    if not rows or rows[0][1] is None:
+        r.missing("Locale::merge (syntax)")
+    elif not bad:
+        r.inst("Locale::merge#MissingKey: MissingKey only when default_to is Implicit", "%d cases" % len(rows), cfg=cfg)
+        r.inst("Locale::merge#MissingKey: every absent key becomes Default and is merged", "holds", cfg=cfg)
+        r.inst("Locale::merge#SurplusKey: reverse comparison on every completing path", "every key of the locale that the default key set lacks is reported, whatever the sizes of the two sets", cfg=cfg)
+        r.inst("Locale::merge#SurplusKey: polarity", "emitted exactly when the default key set does not contain the key; nothing under suppress_key_warnings", cfg=cfg)
+        r.inst("Locale::merge#SurplusKey: every key tested", "holds", cfg=cfg)
     else:
-        (ve, vsw), (de, dsw) = entry_sw[0], dt_sw[0]
-        adt = prog.adts.get("std::collections::btree_map::Entry", {})
-        vac = [t for v, t in vsw["targets"] if v == "0"]
-        implicit = [M.resolve_matches(b, t) for v, t in dsw["targets"] if v == "1"]
-        w = ins[0]
-        mk = miss[0]
-        emit = [c for c in M.call_blocks(b, r"warning::Warnings::emit_warning$") if b.dominates(mk, c) or c == mk]
-        conds = {
-            "implicit test is on the vacant side": bool(vac) and b.dominates(vac[0], de) and not b.paths_avoiding(0, [de], [vac[0]]),
-            "MissingKey only when default_to is Implicit": bool(implicit) and _dominated_via(b, implicit[0], mk, de),
-            "every vacant key passes the Implicit test before Default is inserted": bool(vac) and not b.paths_avoiding(vac[0], [w], [de]),
-            "an Implicit vacant key cannot reach the insert without emitting": bool(implicit) and bool(emit) and not _bypass_true_side(b, de, dsw, emit, w),
-            "the warning is emitted": bool(emit),
-        }
-        for k, ok in conds.items():
-            if ok:
-                r.inst("Locale::merge#MissingKey: " + k, "holds", cfg=cfg)
-            else:
-                r.viol("R2:merge#MissingKey:" + k.replace(" ", "-"), "violated: " + k, file=b.file, line=b.blocks[mk]["term"]["line"])
-    # --- SurplusKey: reverse comparison on every completing path
-    sur = [i for i in M.agg_blocks(b, "warning::Warning", "SurplusKey")]
-    keys_calls = M.call_blocks(b, r"BTreeMap::<K, V, A>::keys$")
-    ck = M.call_blocks(b, r"BTreeMap::<K, V, A>::contains_key$")
-    if suppress:
-        if any(s in feas for s in sur):
-            r.viol("R2:merge#surplus-suppressed", "SurplusKey is still reachable although suppress_key_warnings is enabled", file=b.file, line=b.line)
-        else:
-            r.inst("Locale::merge#SurplusKey", "unreachable under suppress_key_warnings (constant switch)", cfg=cfg)
-    elif len(sur) != 1 or not keys_calls or not ck or not oks:
-        r.viol("R2:merge#surplus-shape", "cannot identify the reverse comparison (SurplusKey sites %d, keys() calls %d, contains_key calls %d)" % (len(sur), len(keys_calls), len(ck)), file=b.file, line=b.line)
-    else:
-        sk = sur[0]
-        loop_keys = [k for k in keys_calls if b.dominates(k, sk)]
-        if not loop_keys:
-            r.viol("R2:merge#surplus-loop", "SurplusKey is not inside a loop over self.keys.keys()", file=b.file, line=b.line)
-        else:
-            k0 = loop_keys[0]
-            recv = op_place(b.blocks[k0]["term"]["args"][0])
-            on_self = recv is not None and M.derives_from_field(b, prog, recv["l"], "locale::Locale", "keys")
-            if M.feasible_paths_avoiding(b, 0, oks, [k0]):
-                r.viol("R2:merge#surplus-bypass", "a completing path of Locale::merge skips the reverse (surplus) key comparison through a run-time condition: surplus keys of some locales are never reported", file=b.file, line=b.blocks[k0]["term"]["line"])
-            elif not on_self:
-                r.viol("R2:merge#surplus-source", "the reverse comparison does not iterate the locale's own keys", file=b.file, line=b.blocks[k0]["term"]["line"])
-            else:
-                r.inst("Locale::merge#SurplusKey: reverse comparison on every completing path", "keys() at bb%d dominates Ok on all feasible paths" % k0, cfg=cfg)
-            # polarity: !keys.0.contains_key(key) -> emit
-            good = False
-            for c in ck:
-                if not b.dominates(k0, c):
-                    continue
-                rsw = M.result_switch(b, c)
-                if not rsw:
-                    continue
-                swb, t_true, t_false = rsw
-                recv = op_place(b.blocks[c]["term"]["args"][0])
-                on_default = recv is not None and M.derives_from_field(b, prog, recv["l"], "locale::BuildersKeysInner", "0")
-                if on_default and M.straight_reach(b, t_false, sk) and not M.exclusive_reach(b, t_true, sk, t_false):
-                    good = True
-            if good:
-                r.inst("Locale::merge#SurplusKey: polarity", "emitted exactly when the default key set does not contain the key", cfg=cfg)
-            else:
-                r.viol("R2:merge#surplus-polarity", "SurplusKey is not emitted on the false side of `default_keys.contains_key(key)`", file=b.file, line=b.blocks[sk]["term"]["line"])
-            # every iteration of the loop tests the key
-            lp = M.loop_of(b, sk)
-            if lp:
-                hdr, nodes = lp
-                somes = []
-                for i, t in b.calls():
-                    if i in nodes and (callee_name(t) or "").endswith("Iterator>::next"):
-                        for (si, sw, pl) in M.discr_switches(b, lambda pl, t=t: pl["l"] == t["dest"]["l"]):
-                            somes += [tt for v, tt in sw["targets"] if v == "1"]
-                srcs = [s for (s, h) in b.back_edges() if s in nodes]
-                cks = [c for c in ck if c in nodes]
-                if somes and all(not b.paths_avoiding(s, srcs, cks) for s in somes):
-                    r.inst("Locale::merge#SurplusKey: every key tested", "no iteration of the reverse loop bypasses contains_key", cfg=cfg)
-                else:
-                    r.viol("R2:merge#surplus-skip", "an iteration of the reverse comparison can skip the membership test", file=b.file)
+        for (label, res, log, want) in bad[:4]:
+            kinds_got = sorted(x[1] for x in log if x[0] == "warn") if log else res
+            kinds_want = sorted(x[1] for x in want if x[0] == "warn")
+            key = "missing" if kinds_got != kinds_want and "MissingKey" in (kinds_want + (kinds_got if isinstance(kinds_got, list) else [])) and (not isinstance(kinds_got, list) or kinds_got.count("MissingKey") != kinds_want.count("MissingKey")) else ("surplus" if isinstance(kinds_got, list) and kinds_got.count("SurplusKey") != kinds_want.count("SurplusKey") else "merge")
+            r.viol("R2:merge#%s:%s" % (key, label.replace(" ", "_")), "with %s Locale::merge reports %s and does %s; expected warnings %s and %s" % (label, kinds_got, [x for x in localemerge.describe(log) if x[0] != "warn"], kinds_want, [x for x in localemerge.describe(want) if x[0] != "warn"]), file=b.file, line=b.line)
     # --- Locale::merge is never applied to the default locale
     cl = prog.body("parse_locales::check_locales_inner")
     if cl is None:
